@@ -232,30 +232,28 @@ scenario_real(const char *tr, uint64_t seed, int nact)
 	cb_rej_pre = cb_rej_post = 0;
 	pthread_mutex_unlock(&ev_mtx);
 	uint64_t t0 = real_ms();
-	int      all = 0;
-	while (!all && real_ms() - t0 < 6000) {
-		all = 1;
+	int      stable = 0;
+	int      has[R_ND];
+	// (a pipe may still be lost right after it was seen -- closes issued earlier propagate from the
+	//  peer -- so the condition must hold at three consecutive looks; the L lines report those looks)
+	while (stable < 3 && real_ms() - t0 < 8000) {
+		int all = 1;
 		for (int k = 0; k < nd; k++) {
 			nni_dialer *d;
-			if (!D[k].open || !L[D[k].target].open) continue;
+			has[k] = -1;
+			if (!D[k].open) continue;
 			if (nni_dialer_find(&d, (uint32_t) nng_dialer_id(D[k].d)) != 0) continue;
-			if (d->d_pipe == NULL) all = 0;
+			has[k] = d->d_pipe != NULL;
+			if (L[D[k].target].open && !has[k]) all = 0;
 			nni_dialer_rele(d);
 		}
-		if (!all) {
-			nng_verif_clock_advance(150);
-			msleep(5);
-		}
+		stable = all ? stable + 1 : 0;
+		if (!all) nng_verif_clock_advance(150);
+		msleep(4);
 	}
 	for (int k = 0; k < nd; k++) {
-		nni_dialer *d;
-		int         has = -1;
-		if (D[k].open && nni_dialer_find(&d, (uint32_t) nng_dialer_id(D[k].d)) == 0) {
-			has = d->d_pipe != NULL;
-			nni_dialer_rele(d);
-		}
-		printf("L d%d id=%d open=%d target_open=%d pipe=%d waited=%llu\n", k, nng_dialer_id(D[k].d), D[k].open, L[D[k].target].open, has,
-		    (unsigned long long) (real_ms() - t0));
+		printf("L d%d id=%d open=%d target_open=%d pipe=%d waited=%llu stable=%d\n", k, nng_dialer_id(D[k].d), D[k].open, L[D[k].target].open, has[k],
+		    (unsigned long long) (real_ms() - t0), stable);
 	}
 	// close the sockets in a random order
 	int order[R_NSOCK] = { 0, 1, 2 };
@@ -666,9 +664,26 @@ scenario_waitleak(const char *tr)
 	return 0;
 }
 
+// hook H5 (named delay points on the create/close paths): seeded random sleeps widen the race windows
+extern void (*nng_verif_delay_hook)(int point, void *obj);
+static uint64_t dly_seed;
+static void
+delay_hook(int point, void *obj)
+{
+	uint64_t h = mix(dly_seed ^ ((uint64_t) point << 32) ^ (uint64_t) (uintptr_t) obj ^ (uint64_t) real_ms());
+	if ((h & 3) == 0) {
+		struct timespec ts = { 0, (long) ((h >> 8) % 2000000) };
+		nanosleep(&ts, NULL);
+	}
+}
+
 static int
 scenario_main(int argc, char **argv)
 {
+	if (getenv("C14_DELAY_SEED") != NULL && atoll(getenv("C14_DELAY_SEED")) != 0) {
+		dly_seed             = strtoull(getenv("C14_DELAY_SEED"), NULL, 10);
+		nng_verif_delay_hook = delay_hook;
+	}
 	if (argc >= 3 && strcmp(argv[1], "waitleak") == 0) return scenario_waitleak(argv[2]);
 	if (argc >= 5 && strcmp(argv[1], "real") == 0) return scenario_real(argv[2], strtoull(argv[3], NULL, 10), atoi(argv[4]));
 	if (argc >= 7 && strcmp(argv[1], "redial") == 0)
